@@ -38,9 +38,16 @@ def payload_id(k: int, j: int) -> int:
     return 10 * k + j
 
 
+# MergeGen.tla IdLayouts: how the identifier ranges of the inputs lie to each other - every later input below the earlier
+# one ("descending"), above it ("ascending": consecutive slices of a mission database), or the first two swapped and the
+# last on top ("mixed": out of order at the first seam, in order at the last).  Set per case by run_case.
+_idlayout = {'v': 'descending'}
+
+
 def flight_id(k: int, j: int, n: int) -> int:
-    # descending inside a part, parts interleaved: the merged id table is unsorted by position
-    return 100 * (4 - k) + (n - j)
+    # descending inside a part: the merged id table is unsorted by position
+    block = {'descending': 4 - k, 'ascending': k, 'mixed': {1: 2, 2: 1, 3: 3}.get(k, k)}[_idlayout['v']]
+    return 100 * block + (n - j)
 
 
 def build_item(k, j, shape, assoc):
@@ -409,6 +416,7 @@ def run_case(case):
     # MergeGen.tla / StoreGen.tla IdRenderings: every second case renders its identifiers as 19-digit composite keys
     # (beyond 32 bits, not representable as float64) - the merged id table is keyed by the exact 64-bit value
     _k = (len(case['ins']) + case['fault'] + sum(x['n'] for x in case['ins'])) % 3
+    _idlayout['v'] = ('descending', 'mixed', 'ascending')[(len(case['ins']) + 2 * case['fault'] + case['ins'][0]['n']) % 3]
     # ... every third one as signed numbers around zero (the identifiers of the first input stay positive, those of
     # the later ones are negative: the merged table has both signs)
     _idr['wide'], _idr['zero'], _idr['signed'] = _k == 1, False, 250 if _k == 2 else 0
